@@ -191,16 +191,26 @@ R.contract(
     unreachable_ok=["tags = []"],    # the `except Exception` arm: list(attrs.get("tags", [])) cannot raise for a dict-valued attrs
 )
 
-# ------------------------------------------------------------------ propagation loop of _t1_one_graph (region, perf caps off)
-# heap `pq` = trusted multiset model (pyvc/externals.py: heappush adds, heappop removes and returns a least tuple);
-# acc = defaultdict(float).  t1_reach(v, d) is any relation closed under "seeds at distance 0" and "one csr edge = one
-# more hop" (axioms below): what is proved of it holds of true reachability, the least such relation.
+# ------------------------------------------------------------------ propagation of _t1_one_graph (two regions x perf off/on)
+# heap `pq` = trusted multiset model (pyvc/externals.py: heappush adds, heappop removes and returns a least tuple,
+# nsmallest = prefix of sorted); acc = defaultdict(float).  t1_reach(v, d) is any relation closed under "seeds at distance 0"
+# and "one csr edge = one more hop" (axioms below): what is proved of it holds of true reachability, the least such relation.
+# The region is cut in two at the `while`: [seeding] establishes the loop-entry facts _LOOP_FACTS, [propagation loop] assumes
+# exactly the same list as its precondition (same python object: the two contracts cannot drift apart) and proves the
+# budget / radius / reachability / counter clauses.  With the PR31 perf structures ON, the dedupe ring and the visited set
+# are *arbitrary* objects (any answers of contains()/add(); their real behaviour is C15's business) and the frontier cap
+# evicts through heapq.nsmallest: the clauses hold whatever they answer.
 R.record("T1Edge", {"weight": "float", "rel": "str"})
 R.uf("t1_reach", ["Un[Nid]", "int"], "bool")
 CSR_T = "Dict[Un[Nid], List[Tuple[Un[Nid], T1Edge]]]"
 NMAP = "Dict[Un[Nid], float]"
+PQ_T = "List[Tuple[float, Un[Nid], Un[Nid], float]]"
 R.dictrec("T1DecayFull", {"mode": "str", "alpha": "float", "rate": "float", "floor": "float"})
 R.dictrec("T1CfgDecayFull", {"decay": "T1DecayFull"})
+R.funtype("T1RingContains", params=["x"], returns="bool")
+R.funtype("T1RingAdd", params=["x"], returns="bool")
+R.objtype("T1AnyKeySet", {"contains": "T1RingContains", "add": "T1RingAdd"})
+R.funtype("T1KeySetCtor", params=["k"], returns="T1AnyKeySet")
 _RC1 = "(not is_none(relax_cap) and some(relax_cap) >= 1)"
 _CAPS = ("forall((v, 'Un[Nid]'), v in dist, t1_reach(v, dist[v]) and (dist[v] == 0 or "
          "(1 <= dist[v] and dist[v] <= radius_cap and dist[v] <= effective_iter_cap_layers)))")
@@ -212,55 +222,89 @@ _COMMON_INV = [
     "propagations >= 0 and radius_cap_hits_local >= 0 and layer_hits_local >= 0 and node_budget_hits_local >= 0 and layers_processed >= 0",
     "implies(" + _RC1 + ", propagations < some(relax_cap))",
 ]
-R.contract(
-    ONE, "C12", name="_t1_one_graph[propagation-loop region, perf caps off]", callee=False,
-    region=("acc = defaultdict(float)", "while pq and pops"),
-    types={"gid": "str", "csr": CSR_T, "seeds": NMAP, "cfg_t1": "T1CfgDecayFull", "edge_mult": "Dict[str, float]",
-           "radius_cap": "int", "effective_iter_cap_layers": "int", "effective_queue_budget": "int", "node_budget": "float",
-           "relax_cap": "Optional[int]", "perf_enabled": "=False", "dedupe_window_cfg": "int", "visited_cap_cfg": "int",
-           "effective_frontier_cap": "=None"},
-    ghost={"heap_pops": ("int", "0")},     # incremented by the trusted heappop model
-    axioms=[
-        "forall((s, 'Un[Nid]'), s in seeds, t1_reach(s, 0))",
-        "forall((u, 'Un[Nid]'), u in csr, forall(i, 0 <= i < len(csr[u]), forall(d, t1_reach(u, d), t1_reach(csr[u][i][0], d + 1))))",
-    ],
-    requires=[("alpha-nonneg", "implies(cfg_t1['decay']['mode'] == 'attn_quad', cfg_t1['decay']['alpha'] >= 0)")],
-    ensures=[
-        ("pops-within-budget", "0 <= pops and pops <= max(effective_queue_budget, 0)"),
-        ("pops-counter-matches-heap-pops", "pops == heap_pops"),
-        ("relaxations-within-cap", "implies(" + _RC1 + ", propagations <= some(relax_cap))"),
-        ("touched-nodes-reachable-within-radius-and-layer-caps",
-         "forall((v, 'Un[Nid]'), v in acc, v in dist and t1_reach(v, dist[v]) and 0 <= dist[v] and "
-         "(dist[v] == 0 or (dist[v] <= radius_cap and dist[v] <= effective_iter_cap_layers)))"),
-        ("every-seed-touched", "forall((s, 'Un[Nid]'), s in seeds, s in acc)"),
-        ("counters-nonnegative", "propagations >= 0 and radius_cap_hits_local >= 0 and layer_hits_local >= 0 and node_budget_hits_local >= 0"),
-        ("graph-index-and-seeds-untouched", "seq_eq(csr, old(csr)) and seq_eq(seeds, old(seeds)) and seq_eq(edge_mult, old(edge_mult))"),
-    ],
-    raises="none",
-    loops={
-        2: {"inv": [
-            "forall((k, 'Un[Nid]'), k in _done, k in acc and k in dist and dist[k] == 0)",
+_LOOP_FACTS = _COMMON_INV + ["0 <= pops and pops <= max(effective_queue_budget, 0) and pops == heap_pops"]
+_REACH_AXIOMS = [
+    "forall((s, 'Un[Nid]'), s in seeds, t1_reach(s, 0))",
+    "forall((u, 'Un[Nid]'), u in csr, forall(i, 0 <= i < len(csr[u]), forall(d, t1_reach(u, d), t1_reach(csr[u][i][0], d + 1))))",
+]
+_CFG_TYPES = {"gid": "str", "csr": CSR_T, "seeds": NMAP, "cfg_t1": "T1CfgDecayFull", "edge_mult": "Dict[str, float]",
+              "radius_cap": "int", "effective_iter_cap_layers": "int", "effective_queue_budget": "int", "node_budget": "float",
+              "relax_cap": "Optional[int]", "dedupe_window_cfg": "int", "visited_cap_cfg": "int"}
+_PERF_OFF_DEAD = [   # perf-cap structures are off in this variant (ring, visited_lru, frontier cap are None)
+    "local_t1_dedup_hits = 1", "ev = len(pq) - effective_frontier_cap", "pq = heapq.nsmallest(", "heapq.heapify(pq)",
+    "local_t1_frontier_evicted = ev", "local_t1_frontier_evicted_total += ev", "if ring:", "local_t1_dedup_hits_total += 1",
+    "if visited_lru and visited_lru.contains(u):", "if visited_lru:"]
+# dead code by the loop invariant: every dist[v] > 0 is <= effective_iter_cap_layers (deeper relaxations are skipped at the
+# edge, `layer_hits_local`), so a popped node never has layers_processed > effective_iter_cap_layers
+_DEAD_LAYER_CHECK = ["if layers_processed > effective_iter_cap_layers:"]
+_LOOP_ENSURES = [
+    ("pops-within-budget", "0 <= pops and pops <= max(effective_queue_budget, 0)"),
+    ("pops-counter-matches-heap-pops", "pops == heap_pops"),
+    ("relaxations-within-cap", "implies(" + _RC1 + ", propagations <= some(relax_cap))"),
+    ("touched-nodes-reachable-within-radius-and-layer-caps",
+     "forall((v, 'Un[Nid]'), v in acc, v in dist and t1_reach(v, dist[v]) and 0 <= dist[v] and "
+     "(dist[v] == 0 or (dist[v] <= radius_cap and dist[v] <= effective_iter_cap_layers)))"),
+    ("every-seed-touched", "forall((s, 'Un[Nid]'), s in seeds, s in acc)"),
+    ("counters-nonnegative", "propagations >= 0 and radius_cap_hits_local >= 0 and layer_hits_local >= 0 and node_budget_hits_local >= 0"),
+    ("graph-index-and-seeds-untouched", "seq_eq(csr, old(csr)) and seq_eq(seeds, old(seeds)) and seq_eq(edge_mult, old(edge_mult))"),
+]
+_LOCALS = {"acc": NMAP, "dist": "Dict[Un[Nid], int]", "pq": PQ_T, "local_t1_dedup_hits": "int", "local_t1_frontier_evicted": "int",
+           "local_max_delta": "float", "ev": "int"}
+
+for _perf in (False, True):
+    _tag = "perf caps on" if _perf else "perf caps off"
+    _perf_types = ({"perf_enabled": "=True", "effective_frontier_cap": "int"} if _perf
+                   else {"perf_enabled": "=False", "effective_frontier_cap": "=None"})
+    _perf_req = [("perf-structures-on", "dedupe_window_cfg > 0 and visited_cap_cfg > 0")] if _perf else []
+    # ---- [seeding]: accumulators, perf structures, heap seeding -> the facts the while loop starts from
+    R.contract(
+        ONE, "C12", name="_t1_one_graph[seeding region, %s]" % _tag, callee=False,
+        region=("acc = defaultdict(float)", "if 'local_t1_frontier_evicted' in locals():"),
+        types=dict(_CFG_TYPES, DedupeRing="T1KeySetCtor", DeterministicLRUSet="T1KeySetCtor", **_perf_types),
+        ghost={"heap_pops": ("int", "0")},     # incremented by the trusted heappop model
+        axioms=_REACH_AXIOMS,
+        requires=_perf_req,
+        ensures=[("loop-entry-fact#%d" % i, f) for i, f in enumerate(_LOOP_FACTS)] + [
+            ("every-seed-at-distance-zero", "forall((s, 'Un[Nid]'), s in seeds, s in dist and dist[s] == 0 and acc[s] == seeds[s])"),
+            ("only-seeds-touched-so-far", "forall((v, 'Un[Nid]'), v in acc, v in seeds)"),
+            ("graph-index-and-seeds-untouched", "seq_eq(csr, old(csr)) and seq_eq(seeds, old(seeds))"),
+        ],
+        raises="none",
+        loops={2: {"inv": [
+            "forall((k, 'Un[Nid]'), k in _done, k in acc and acc[k] == seeds[k] and k in dist and dist[k] == 0)",
             "forall((k, 'Un[Nid]'), k in acc, k in _done)",
             "forall((k, 'Un[Nid]'), k in dist, k in _done)",
             "forall(p, 0 <= p < len(pq), pq[p][2] in _done)",
             "local_max_delta >= 0",
-        ]},
-        3: {"inv": _COMMON_INV + ["0 <= pops and pops <= max(effective_queue_budget, 0) and pops == heap_pops"]},
-        4: {"inv": _COMMON_INV + ["u in dist and u in csr and not stop_relax"]},
-    },
-    locals={"acc": NMAP, "dist": "Dict[Un[Nid], int]", "pq": "List[Tuple[float, Un[Nid], Un[Nid], float]]",
-            "local_t1_dedup_hits": "int", "local_t1_frontier_evicted": "int", "local_max_delta": "float"},
-    feas_timeout_ms=60, named_seqs=True,
-    unreachable_ok=[
-        # perf-cap structures are off in this variant (ring, visited_lru, frontier cap are None)
-        "local_t1_dedup_hits = 1", "ev = len(pq) - effective_frontier_cap", "pq = heapq.nsmallest(", "heapq.heapify(pq)",
-        "local_t1_frontier_evicted = ev", "local_t1_frontier_evicted_total += ev", "if ring:", "local_t1_dedup_hits_total += 1",
-        "if visited_lru and visited_lru.contains(u):", "if visited_lru:",
-        # dead code by the loop invariant: every dist[v] > 0 is <= effective_iter_cap_layers (deeper relaxations are skipped
-        # at the edge, `layer_hits_local`), so a popped node never has layers_processed > effective_iter_cap_layers
-        "if layers_processed > effective_iter_cap_layers:",
-    ],
-)
+        ]}},
+        locals=_LOCALS,
+        feas_timeout_ms=60, named_seqs=True,
+        unreachable_ok=(["local_t1_dedup_hits = 1", "ev = len(pq) - effective_frontier_cap", "pq = heapq.nsmallest(", "heapq.heapify(pq)",
+                         "local_t1_frontier_evicted = ev", "if ring:"] if not _perf else []),
+    )
+    # ---- [propagation loop]: the while loop alone, from any state satisfying the loop-entry facts
+    R.contract(
+        ONE, "C12", name="_t1_one_graph[propagation-loop region, %s]" % _tag, callee=False,
+        region=("while pq and pops", "while pq and pops"),
+        types=dict(_CFG_TYPES, acc="DefaultDict[Un[Nid], float]", dist="Dict[Un[Nid], int]", pq=PQ_T, pops="int", layers_processed="int",
+                   propagations="int", layer_hits_local="int", radius_cap_hits_local="int", node_budget_hits_local="int",
+                   local_max_delta="float", local_t1_dedup_hits_total="int", local_t1_frontier_evicted_total="int",
+                   local_t1_visited_evicted_total="int",
+                   ring=("T1AnyKeySet" if _perf else "=None"), visited_lru=("T1AnyKeySet" if _perf else "=None"), **_perf_types),
+        ghost={"heap_pops": ("int", "any")},
+        axioms=_REACH_AXIOMS,
+        requires=[("alpha-nonneg", "implies(cfg_t1['decay']['mode'] == 'attn_quad', cfg_t1['decay']['alpha'] >= 0)")]
+        + [("loop-entry-fact#%d" % i, f) for i, f in enumerate(_LOOP_FACTS)],
+        ensures=_LOOP_ENSURES,
+        raises="none",
+        loops={3: {"inv": _LOOP_FACTS}, 4: {"inv": _COMMON_INV + ["u in dist and u in csr and not stop_relax"]}},
+        locals=_LOCALS,
+        feas_timeout_ms=60, named_seqs=True,
+        unreachable_ok=(_DEAD_LAYER_CHECK if _perf else ["local_t1_dedup_hits_total += 1", "ev = len(pq) - effective_frontier_cap",
+                                                         "pq = heapq.nsmallest(", "heapq.heapify(pq)", "local_t1_frontier_evicted_total += ev",
+                                                         "if ring:", "if visited_lru and visited_lru.contains(u):", "if visited_lru:"]
+                        + _DEAD_LAYER_CHECK),
+    )
 
 R.contract(
     T1 + "t1_propagate", "C12", name="t1_propagate[slice-clamps,no-slice-attr]", callee=False,
